@@ -34,7 +34,7 @@
 (*                                                                         *)
 (* Binding: P-TABLE.  One state per (type, value); Next prints the row:    *)
 (* value, reference bytes, which cuts are accepted, and for every count /  *)
-(* length prefix the mutants {0, n-1, n+1, non-minimal, 0xFFFF, 2^64-1}    *)
+(* length prefix the mutants {0, n-1, n+1, non-minimal, 0xFFFF, 2^32, 2^64-1}*)
 (* with the strict and the code-shaped verdict.  harness/cmd/vd-schema     *)
 (* builds the Go value by reflection and compares the real codecs.         *)
 (***************************************************************************)
@@ -181,6 +181,10 @@ EncImpl(t, v, pi) ==
 (* total decoder                                                            *)
 (* ------------------------------------------------------------------------ *)
 Err == [st |-> "err", v |-> <<>>, p |-> 0]
+(* rejected because a list / map count exceeds the remaining input *and* is huge (>= 2^24): the rows carry this as  *)
+(* `big`, so that the driver can recognise inputs which kill a decoder that allocates by the count                 *)
+ErrBigCount == [st |-> "err", v |-> <<>>, p |-> -1]
+CountErr(c) == IF ~Small(c) \/ ToInt(c) >= 16777216 THEN ErrBigCount ELSE Err
 Sem == [st |-> "sem", v |-> <<>>, p |-> 0]      \* syntactically fine, refused by a semantic test of the decoder
 Ok(v, p) == [st |-> "ok", v |-> v, p |-> p]
 Avail(b, p) == Len(b) - p + 1
@@ -232,12 +236,12 @@ DecK(t, b, p, len) ==
       [] t.k = "list" ->
             LET c == DecCount(t.cnt, b, p)
             IN IF c.st # "ok" THEN Err
-               ELSE IF ~Small(c.v) \/ ToInt(c.v) > Avail(b, c.p) THEN Err   \* every element takes >= 1 byte (ASSUME ElemsTakeSpace)
+               ELSE IF ~Small(c.v) \/ ToInt(c.v) > Avail(b, c.p) THEN CountErr(c.v)   \* every element takes >= 1 byte (ASSUME ElemsTakeSpace)
                ELSE DecSeq(t.of, b, c.p, ToInt(c.v), <<>>, len)
       [] t.k \in {"map", "mapv"} ->
             LET c == DecCount(t.cnt, b, p)
             IN IF c.st # "ok" THEN Err
-               ELSE IF ~Small(c.v) \/ ToInt(c.v) > Avail(b, c.p) THEN Err
+               ELSE IF ~Small(c.v) \/ ToInt(c.v) > Avail(b, c.p) THEN CountErr(c.v)
                ELSE DecMap(t, b, c.p, ToInt(c.v), {}, len)
       [] t.k = "struct" -> DecFields(t.fs, 1, b, p, <<>>, len)
 
@@ -305,7 +309,10 @@ PrefixMutants(site) ==
         nm == IF site.c = "varuint" /\ n < 253 THEN {[cls |-> "nonmin", pre |-> <<253, n, 0>>]} ELSE {}
         ff == IF n # 65535 THEN {[cls |-> "ffff", pre |-> IF site.c = "u64" THEN N8(65535) ELSE <<253, 255, 255>>]} ELSE {}
         mx == {[cls |-> "max", pre |-> IF site.c = "u64" THEN Rep(8, 255) ELSE Rep(9, 255)]}
-    IN z \cup m1 \cup p1 \cup nm \cup ff \cup mx
+        g4 == IF site.kind = "count"          \* 2^32 entries: too small to overflow a size computation, far too many to exist
+              THEN {[cls |-> "g4", pre |-> IF site.c = "u64" THEN <<0, 0, 0, 0, 1, 0, 0, 0>> ELSE <<255, 0, 0, 0, 0, 1, 0, 0, 0>>]}
+              ELSE {}
+    IN z \cup m1 \cup p1 \cup nm \cup ff \cup mx \cup g4
 
 Splice(b, site, pre) == SubSeq(b, 1, site.at - 1) \o pre \o SubSeq(b, site.at + site.w, Len(b))
 
@@ -499,15 +506,16 @@ MutantsOf(t, v, b) ==
                    rs == DecK(t, mb, 1, FALSE)
                    rl == DecK(t, mb, 1, TRUE)
                IN [path |-> sites[x].path, kind |-> sites[x].kind, cls |-> m.cls, at |-> sites[x].at, w |-> sites[x].w,
-                   pre |-> m.pre, strict |-> rs.st, impl |-> rl.st,
+                   pre |-> m.pre, strict |-> rs.st, impl |-> rl.st, big |-> rl.st = "err" /\ rl.p = -1,
                    val |-> IF rl.st = "ok" THEN <<rl.v>> ELSE <<>>,
                    sval |-> IF rs.st = "ok" THEN <<rs.v>> ELSE <<>>]
                : m \in PrefixMutants(sites[x])} : x \in 1..Len(sites)}
 
-(* cuts (proper prefixes) that a decoder accepts, with the value it returns *)
+(* cuts (proper prefixes) that a decoder accepts, with the value it returns; long encodings are cut at a few places only *)
+CutSet(b) == IF Len(b) <= CutBound THEN 0..(Len(b) - 1)
+             ELSE {0, 1, 2, 3, 5, 9, Len(b) \div 2, Len(b) - 300, Len(b) - 2, Len(b) - 1}
 AcceptedCuts(t, b, len) ==
-    IF Len(b) > CutBound THEN {}
-    ELSE {c \in {[k |-> k, r |-> DecK(t, SubSeq(b, 1, k), 1, len)] : k \in 0..(Len(b) - 1)} : c.r.st # "err"}
+    {c \in {[k |-> k, r |-> DecK(t, SubSeq(b, 1, k), 1, len)] : k \in CutSet(b)} : c.r.st # "err"}
 
 (* a row is the tuple <<type index, row number, value>> (a tuple, so that TLC compares the type index first). *)
 (* Row number 0 is the per-type start state: the rows of a type are its successors, so that TLC's workers    *)
@@ -520,7 +528,7 @@ Emit == LET t == TypeTable[RTy].t
             b == EncK(t, RV)
         IN /\ (RJ = 1 => PrintT(<<"SCHEMA", ToJson([ty |-> RTy, name |-> TypeTable[RTy].name, t |-> t])>>))
            /\ PrintT(<<"ROW", ToJson([ty |-> RTy, name |-> TypeTable[RTy].name, j |-> RJ, v |-> RV, bytes |-> b,
-                                      allcuts |-> Len(b) <= CutBound,
+                                      allcuts |-> Len(b) <= CutBound, cutset |-> IF Len(b) <= CutBound THEN {} ELSE CutSet(b),
                                       scuts |-> {[k |-> c.k, st |-> c.r.st, v |-> <<c.r.v>>] : c \in AcceptedCuts(t, b, FALSE)},
                                       lcuts |-> {[k |-> c.k, st |-> c.r.st, v |-> <<c.r.v>>] : c \in AcceptedCuts(t, b, TRUE)},
                                       muts |-> MutantsOf(t, RV, b)])>>)
